@@ -598,3 +598,131 @@ Proof.
   - intros t r _ Hlen. lia.
   - apply texpr_step. exact IH.
 Qed.
+
+(* --------------------------------------------------------------- module *)
+Definition wf_assign (a : str * texpr) : bool := wf_typeref (fst a) && wf_texpr (snd a).
+
+Lemma assign_follow_end : forall r, tfollow (K KEND :: r).
+Proof. intro; exact I. Qed.
+
+Lemma assigns_ok : forall l n k r,
+  forallb wf_assign l = true ->
+  length (flat_map pp_assign l) < n -> length l < k ->
+  p_assigns n k (flat_map pp_assign l ++ K KEND :: r) = Some (l, r).
+Proof.
+  induction l as [|[nm t] l IH]; intros n k r Hwf Hlen Hk.
+  - destruct k as [|k']; [cbn in Hk; lia|]. reflexivity.
+  - destruct k as [|k']; [cbn in Hk; lia|].
+    cbn [forallb] in Hwf. apply andb_prop in Hwf. destruct Hwf as [Ha Hl].
+    unfold wf_assign in Ha. cbn [fst snd] in Ha. apply andb_prop in Ha. destruct Ha as [_ Ht].
+    cbn [flat_map] in *. unfold pp_assign at 1. unfold pp_assign at 1 in Hlen. cbn [fst snd] in *.
+    rewrite <- app_assoc. cbn [app p_assigns].
+    assert (Hf : tfollow (flat_map pp_assign l ++ K KEND :: r)).
+    { destruct l as [|[nm2 t2] l2]; exact I. }
+    rewrite (Tok_all n t _ Ht ltac:(clear IH; lens) Hf).
+    rewrite (IH n k' r Hl ltac:(clear IH; lens) ltac:(clear IH; lens)). reflexivity.
+Qed.
+
+Lemma flags_ok : forall td ei r,
+  p_flags (pp_flags td ei ++ Y Assign :: r) = (td, ei, Y Assign :: r).
+Proof. intros [| | |] [|] r; reflexivity. Qed.
+
+Lemma module_ok : forall m n,
+  wf_module m = true -> length (pp_module m) <= n ->
+  p_module n (pp_module m) = Some (m, []).
+Proof.
+  intros [nm td ei l] n Hwf Hlen.
+  unfold wf_module in Hwf. cbn [m_name m_assigns] in Hwf.
+  apply andb_prop in Hwf. destruct Hwf as [_ Hl].
+  unfold pp_module in *. cbn [m_name m_tags m_extimpl m_assigns] in *.
+  unfold p_module. rewrite flags_ok.
+  assert (Hc : length l <= length (flat_map pp_assign l)).
+  { clear. induction l as [|[a t] l IH]; [cbn; lia|]. cbn [flat_map]. unfold pp_assign at 1. lens. }
+  rewrite (assigns_ok l n n [] Hl ltac:(lens) ltac:(lens)). reflexivity.
+Qed.
+
+(* ----------------------------------------------------- the two theorems *)
+Theorem parse_pp : forall m, wf_module m = true -> parse (pp_module m) = Some m.
+Proof.
+  intros m Hwf. unfold parse.
+  rewrite (module_ok m (S (length (pp_module m))) Hwf ltac:(lia)). reflexivity.
+Qed.
+
+Corollary pp_fixpoint : forall m, wf_module m = true ->
+  exists m', parse (pp_module m) = Some m' /\ pp_module m' = pp_module m.
+Proof. intros m Hwf. exists m. split; [apply parse_pp; exact Hwf|reflexivity]. Qed.
+
+(* the byte-level printer is a function of the AST, so the cycle reproduces the bytes too *)
+Corollary ppb_fixpoint : forall m, wf_module m = true ->
+  exists m', parse (pp_module m) = Some m' /\ ppb_module m' = ppb_module m.
+Proof. intros m Hwf. exists m. split; [apply parse_pp; exact Hwf|reflexivity]. Qed.
+
+(* any two well-formed modules with the same printed tokens are the same module: what the
+   compiler is given after a print/parse cycle is the tree it was given before *)
+Corollary pp_injective : forall a b, wf_module a = true -> wf_module b = true ->
+  pp_module a = pp_module b -> a = b.
+Proof.
+  intros a b Ha Hb E. pose proof (parse_pp a Ha) as Pa. pose proof (parse_pp b Hb) as Pb.
+  rewrite E in Pa. congruence.
+Qed.
+
+(* --------------------------------------------------------- non-vacuity *)
+Local Open Scope str_scope.
+Definition ex_module : module_ast :=
+  mkModule "Mod1" TDAutomatic false
+    [("Qa", TStruct None SSequence
+        [MComp "a" (TPrim None (PInteger [("one", 1%Z); ("two", 2%Z)])
+                      (Some (CSet [CCsv [CUni [CRange (EInt 1) (EInt 10); CRange (EInt 20) EMax]; CExt]])))
+                   MOptional;
+         MComp "b" (TPrim (Some (mkTag TCContext 1 TMImplicit)) PBoolean None) (MDefault (DBool true));
+         MExt;
+         MComp "c" (TOf None OSet (Some (CSet [CSize (CSet [CRange (EInt 1) EMax])]))
+                      (TPrim None (PRef "Qb") None)) MNone;
+         MComp "h" (TPrim None (PInteger [])
+                      (Some (CSet [CInt [CSet [CUni [CRange (EInt 1) (EInt 5); CVal 7]];
+                                         CSet [CRange (EInt 2) (EInt 9)]]]))) MNone]);
+     ("Qb", TPrim (Some (mkTag TCApplication 2 TMExplicit))
+                  (PEnumerated [EItem "r" (Some 0%Z); EItem "g" None; EExt; EItem "b" (Some 5%Z)]) None)].
+
+Example ex_module_wf : wf_module ex_module = true.
+Proof. vm_compute. reflexivity. Qed.
+
+Example ex_module_roundtrip : parse (pp_module ex_module) = Some ex_module.
+Proof. vm_compute. reflexivity. Qed.
+
+Example ex_module_lex : lex (ppb_module ex_module) = Some (pp_module ex_module).
+Proof. vm_compute. reflexivity. Qed.
+
+Example ex_ident : wf_ident "seq-no17" = true /\ wf_ident "Seq" = false /\ wf_ident "a--b" = false
+                   /\ wf_ident "a-" = false /\ wf_typeref "Qa-b" = true /\ wf_typeref "SEQUENCE" = false.
+Proof. vm_compute. repeat split. Qed.
+
+(* ------------------------------------------------------------- refuted *)
+(* Without the well-formedness side condition the fixpoint statement is false of trees
+   the grammar itself builds: source `(((1)))` yields ACT_CA_SET[ACT_CA_SET[1]]
+   (one pair merged by `Constraint`), printed `((1))`, whose parse is ACT_CA_SET[1],
+   printed `(1)`.  The reference parser, which builds trees like asn1p_y.y does,
+   exhibits it; the real asn1c shows the same three texts (finding C12-paren-collapse). *)
+Definition deep_source : list token :=
+  [TUp "M"; K KDEFINITIONS; Y Assign; K KBEGIN;
+   TUp "A"; Y Assign; K KINTEGER; Y LParen; Y LParen; Y LParen; TNum 1; Y RParen; Y RParen; Y RParen;
+   K KEND].
+
+Definition deep_module : module_ast :=
+  mkModule "M" TDNone false [("A", TPrim None (PInteger []) (Some (CSet [CSet [CVal 1]])))].
+
+Lemma deep_module_parsed : parse deep_source = Some deep_module.
+Proof. vm_compute. reflexivity. Qed.
+
+Theorem pp_fixpoint_refuted :
+  exists src m, parse src = Some m /\
+    forall m', parse (pp_module m) = Some m' -> pp_module m' <> pp_module m.
+Proof.
+  exists deep_source, deep_module. split; [exact deep_module_parsed|].
+  intros m' H. vm_compute in H. inversion H; subst. vm_compute. discriminate.
+Qed.
+
+(* and the cycle stabilises after that step: the second print is well-formed *)
+Lemma deep_module_second_print_wf :
+  exists m', parse (pp_module deep_module) = Some m' /\ wf_module m' = true.
+Proof. eexists. split; vm_compute; reflexivity. Qed.
